@@ -7,7 +7,8 @@ SPEC = dict(
          "(0, 1..8, around the number of keys, 600) and explicit ClearKeyLevelCache calls; between computations the entry set evolves by "
          "same-length value changes (in the caller's buffer), embedded<->hashed flips, removals, re-insertion with the old value, reverts to "
          "earlier values, unchanged steps; entries supplied key-sorted or in insertion order. Compared per computation: the Go cached root "
-         "and KeyLevelCache.Len() against the model's FROM-SCRATCH Appendix D root and the cache model's size; caller slices re-read. "
+         "against the model's FROM-SCRATCH Appendix D root; caller slices re-read. KeyLevelCache.Len() is printed next to the cache model's size "
+         "but a size-only difference is counted (differences_outside_the_property), not alarmed: the property fixes roots only. "
          "One case = one history; non-trivial = history produced roots; distinct by input",
     assumptions=["the cache model threads the Go traversal order (swap partition, left subtree first), which the Len() observable depends on"],
     trusted_base=["OCaml Blake2b-256 of the driver (self-tested against the Go hash package at the start of every run)",
@@ -27,6 +28,16 @@ def violates(m):
     if len(a) != len(b):
         return True
     return any(x.split("/")[0] != y.split("/")[0] for x, y in zip(a, b))
+
+
+def ignore(m):
+    """A difference in the cache SIZE only (every root and the caller-buffer flag equal): the property fixes the roots, and
+    C16_cache_sound holds for arbitrary evictions and capacities, so how many entries the cache retains (eviction policy, bypass of
+    embedded values, ...) is neither part of the property nor a premise of the proof. Reported in the evidence, never an alarm.
+    (Until the harmless-change campaign such a difference was a `no-failing-input-found` VIOLATION: neutral/C16/N2, N3.)"""
+    if not violates(m):
+        return "cache size differs from the modelled retention policy; all roots equal (C16_cache_sound covers arbitrary evictions)"
+    return None
 
 
 MANIFEST = dict(
